@@ -71,54 +71,55 @@ type writeSet struct {
 }
 
 type trans struct {
-	prog        *Program
-	vc          *VC
-	fn          *ssa.Function
-	fc          *FuncContract
-	key         string
-	vals        map[ssa.Value]Term
-	tuples      map[ssa.Value][]Term
-	stateSort   map[string]Sort
-	known       map[string]bool
-	in, out     map[int]State
-	reach       map[int]Term
-	edgeCond    map[[2]int]Term
-	obls        []*Obligation
-	errs        []string
-	warns       []string
-	loops       map[int]*loopInfo
-	loopList    []*loopInfo
-	order       []int
-	cur         State
-	curB        *ssa.BasicBlock
-	entry       State
-	final       bool // last pass: emit for real
-	pure        map[string]*fnRef
-	assumed     map[string]bool
-	specRefs    map[string]*fnRef
-	globals     map[string]string
-	ncall       int
-	nobl        map[string]int
-	deferred    []*ssa.Defer
-	retCount    int
-	heapReads   int
-	dispatched  map[string]bool
-	axiomPkgs   map[string]bool
-	termVal     map[Term]ssa.Value
-	termBlock   map[Term]int
-	termFresh   map[Term]bool
-	loopWrites  map[int]map[string]*writeSet // by loop head, from the previous pass
-	curWrites   map[int]map[string]*writeSet
-	inHeadHavoc bool
-	localAllocs map[*ssa.Alloc]bool
-	heapRefs    map[string]string
-	assertDone  map[string]bool
-	immCap      map[*ssa.FreeVar]bool
-	sharedHeaps map[string]bool
-	assertBound map[int]bool
-	heapVal     map[string]types.Type // struct-valued heaps: the value type (for well-formedness of nested references)
-	curCallArgs []ssa.Value
-	stableHeaps map[string]bool
+	prog          *Program
+	vc            *VC
+	fn            *ssa.Function
+	fc            *FuncContract
+	key           string
+	vals          map[ssa.Value]Term
+	tuples        map[ssa.Value][]Term
+	stateSort     map[string]Sort
+	known         map[string]bool
+	in, out       map[int]State
+	reach         map[int]Term
+	edgeCond      map[[2]int]Term
+	obls          []*Obligation
+	errs          []string
+	warns         []string
+	loops         map[int]*loopInfo
+	loopList      []*loopInfo
+	order         []int
+	cur           State
+	curB          *ssa.BasicBlock
+	entry         State
+	final         bool // last pass: emit for real
+	pure          map[string]*fnRef
+	assumed       map[string]bool
+	specRefs      map[string]*fnRef
+	globals       map[string]string
+	ncall         int
+	nobl          map[string]int
+	deferred      []*ssa.Defer
+	retCount      int
+	heapReads     int
+	dispatched    map[string]bool
+	axiomPkgs     map[string]bool
+	termVal       map[Term]ssa.Value
+	termBlock     map[Term]int
+	termFresh     map[Term]bool
+	loopWrites    map[int]map[string]*writeSet // by loop head, from the previous pass
+	curWrites     map[int]map[string]*writeSet
+	inHeadHavoc   bool
+	localAllocs   map[*ssa.Alloc]bool
+	heapRefs      map[string]string
+	assertDone    map[string]bool
+	extraCallVars map[string]SV
+	immCap        map[*ssa.FreeVar]bool
+	sharedHeaps   map[string]bool
+	assertBound   map[int]bool
+	heapVal       map[string]types.Type // struct-valued heaps: the value type (for well-formedness of nested references)
+	curCallArgs   []ssa.Value
+	stableHeaps   map[string]bool
 }
 
 func (tr *trans) errorf(f string, a ...any) {
